@@ -96,6 +96,21 @@ def gen_c06(ctx):
     for ls in itertools.product(faults, repeat=3):
         for k in ('udp', 'tcp'):
             out.append(base(k, ctx.rng.random() < 0.5, 2, ''.join(ls), default='N', phases=[[req(0, 0), req(1, 0), req(2, 300)]]))
+    # a fragmented answer followed by answers that are late but in time (anything armed for the first request and not disarmed
+    # fires inside the later requests), three queued callers
+    for k in ('udp', 'tcp'):
+        for ka in (False, True):
+            for d1, late in ((0.4, 0.8), (0.3, 0.9), (0.1, 0.95), (0.6, 0.7)):
+                for tail in (['N'], [dict(late=late)], ['D', 'N']):
+                    ls = [dict(frag=(6 if k == 'udp' else 10), delay=d1, second='exact'), dict(late=late)] + tail
+                    out.append(base(k, ka, 2, ls, default='N', phases=[[req(0, 0, count=2), req(1, 0, reg=300, count=2), req(2, 0, reg=500, count=2)]]))
+    for _ in range(20 if not ctx.deep else 300):
+        k = ctx.rng.choice(['udp', 'tcp']); ka = ctx.rng.random() < 0.6
+        ncall = ctx.rng.randrange(2, 5)
+        ops = [req(i, at=ctx.rng.choice([0, 0, 0, 100, 400, 900]), reg=100 + 200 * i, count=2) for i in range(ncall)]
+        ls = [ctx.rng.choice(['N', 'D', 'L', dict(late=ctx.rng.choice([0.6, 0.8, 0.9, 0.95])), dict(frag=ctx.rng.choice([6, 8, 10]), delay=ctx.rng.choice([0.1, 0.4, 0.7]), second='exact')])
+              for _ in range(ctx.rng.randrange(1, 6))]
+        out.append(base(k, ka, ctx.rng.choice([1, 2]), ls, default='N', phases=[ops]))
     return out
 
 
@@ -114,6 +129,13 @@ def gen_c07(ctx):
                                   phases=[[req(0, 0, reg=100, count=cnt), req(1, 20000, reg=300, count=cnt)]])
                         if framing == 'aa55': sc['framing'] = 'aa55'
                         out.append(sc)
+    # Modbus/TCP answers whose MBAP length field is wrong (known firmware quirk, the library ignores the field), split in two
+    for delta in (1, -1, 3, 250):
+        for cnt in (1, 5):
+            flen = 2 * cnt + 9
+            for k in ([9, 10, flen - 1] if not ctx.deep else range(1, flen)):
+                out.append(base('tcp', k % 2 == 0, 2, [dict(frag=k, delay=0.2, second='exact', mbap=delta)], default='N',
+                                phases=[[req(0, 0, reg=100, count=cnt), req(1, 20000, reg=300, count=cnt)]]))
     # lone fragment, timeout, retransmission, then the foreign remainder of equal length (stale fragment)
     for kind in ('udp', 'tcp'):
         for ka in (False, True):
